@@ -362,6 +362,14 @@ class ApplyLinks(Processor):
                     new_interaction = interaction
 
                 interaction_key = (*new_interaction.atoms, new_interaction.meta.get("version", 1))
+                # interactions of the molecule itself that are defined on the same
+                # atoms without version tag (e.g. several dihedral terms in an itp
+                # file) must all be kept and not overwrite each other
+                if mapping is None:
+                    count = 1
+                    while interaction_key in self.applied_links[inter_type]:
+                        interaction_key = (*interaction_key[:len(new_interaction.atoms) + 1], count)
+                        count += 1
                 self.applied_links[inter_type][interaction_key] = (new_interaction, citations)
 
     def apply_link_between_residues(self, meta_molecule, link, link_to_resid):
